@@ -103,16 +103,18 @@ def lost_guaranteed(f):
 
 
 # ------------------------------------------------------------------------------------------ table
-def table_case(ctx, mtu, n, side, api, flavour="udp"):
-    c = {"seed": n * 7 + mtu, "flavour": flavour, "mtu": mtu, "strict": True, "table": True,
+def table_case(ctx, mtu, n, side, api, flavour="udp", lose=1):
+    c = {"seed": n * 7 + mtu, "flavour": flavour, "mtu": mtu, "strict": lose == 1, "table": True, "lose": lose, "adv_extra": 2.5 if lose > 1 else 0.0,
          "link": {"seed": 1, "delay": 0.005, "loss": 0.0}, "rtt_extra": 0.0,
          "ticks": [[[side, ["abs", n], -1, api]]], "replays": [], "dt": 0.017}
     return c
 
 
 def run_table_case(ctx, c):
-    """first transmission of every datagram that carries the message is lost (strict: each fragment once)"""
-    seen = set()
+    """the first transmission (c["lose"] = 1, strict: each fragment once) or the first two transmissions (c["lose"] = 2,
+    unfragmented lengths only) of every datagram that carries the message are lost"""
+    seen = {}
+    lose = c.get("lose", 1)
 
     def oracle_(f):
         oracle(ctx, f, c)
@@ -129,9 +131,10 @@ def run_table_case(ctx, c):
                 keys.append(("app", em.to_server, pl))
             elif t == W.T_FRAGMENT and len(pl) >= 6:
                 keys.append(("frag", em.to_server) + struct.unpack(">HHH", pl[:6])[:2])
-        new = [k for k in keys if k not in seen]
+        new = [k for k in keys if seen.get(k, 0) < lose]
         if new:
-            seen.update(new)
+            for k in new:
+                seen[k] = seen.get(k, 0) + 1
             return []
         return None
 
@@ -154,10 +157,11 @@ def run_table(spec, ctx):
             if ctx.out_of_time():
                 ctx.inconclusive += 1
                 return
-            c = table_case(ctx, mtu, n, side, api, "udp" if k % 2 else "twisted")
+            lose = 2 if (n <= P and k % 3 == 0) else 1
+            c = table_case(ctx, mtu, n, side, api, "udp" if k % 2 else "twisted", lose=lose)
             ctx.case({"part": "table", "c": c})
             f = run_table_case(ctx, c)
-            ctx.label("table/" + scen.size_class(n, P, F))
+            ctx.label("table/" + scen.size_class(n, P, F) + ("/lost-twice" if lose == 2 else ""))
             if lost_guaranteed(f):
                 ctx.nt_enum += 1
             if k % 97 == 1:
